@@ -1,6 +1,6 @@
 (* Entry point of the extracted model for the correspondence check: one function from
    (function id, arguments) to the canonical observation string the Go harness records. *)
-From Wire Require Import Base.Bytes Model.Converters Model.Validators Model.GoV Model.Codec Model.DL Model.Message Model.Writer Spec.Faim Spec.Rules.
+From Wire Require Import Base.Bytes Model.Converters Model.Validators Model.GoV Model.Codec Model.DL Model.Message Model.Writer Model.Reader Spec.Faim Spec.Rules.
 From WireGen Require Import Tags Verify.
 
 Definition str (s : string) : bytes := list_byte_of_string s.
@@ -36,15 +36,6 @@ Fixpoint find_tag_from (i : nat) (name : string) (l : list tagdesc) : option (na
   end.
 Definition find_tag (name : bytes) : option (nat * tagdesc) := find_tag_from 0 (string_of_list_byte name) tags.
 
-
-Fixpoint set_tag (i : nat) (v : tagval) (l : list (option tagval)) : list (option tagval) :=
-  match i, l with
-  | O, _ :: t => Some v :: t
-  | S i', x :: t => x :: set_tag i' v t
-  | _, [] => []
-  end.
-
-Definition empty_tags : list (option tagval) := map (fun _ => None) tags.
 
 Definition verdict_str (v : verdict) : bytes :=
   match v with
@@ -181,11 +172,98 @@ Definition run_write (args : list bytes) : bytes :=
   | _ => bs "bad-args"
   end.
 
+(* ---- reads ---- *)
+Fixpoint nat_of_digits (s : bytes) (acc : nat) : nat :=
+  match s with
+  | [] => acc
+  | b :: t => nat_of_digits t (10 * acc + N.to_nat (bN b - 48))
+  end.
+
+Fixpoint split_comma (s : bytes) (cur : bytes) : list bytes :=
+  match s with
+  | [] => [rev cur]
+  | b :: t => if beqb b x2c then rev cur :: split_comma t [] else split_comma t (b :: cur)
+  end.
+
+(* chunk a text: a single number k = uniform k-byte chunks; a comma list = explicit sizes, rest in one chunk *)
+Fixpoint chunk_uniform (fuel k : nat) (s : bytes) : list bytes :=
+  match fuel with
+  | O => [s]
+  | S f => match s with [] => [] | _ => firstn k s :: chunk_uniform f k (skipn k s) end
+  end.
+Fixpoint chunk_sizes (sizes : list nat) (s : bytes) : list bytes :=
+  match sizes with
+  | [] => match s with [] => [] | _ => [s] end
+  | k :: r => match s with [] => [] | _ => firstn k s :: chunk_sizes r (skipn k s) end
+  end.
+Definition chunks_of (spec : bytes) (s : bytes) : list bytes :=
+  match split_comma spec [] with
+  | [k] => let n := nat_of_digits k 0 in if n =? 0 then [s] else chunk_uniform (length s) n s
+  | l => chunk_sizes (map (fun x => nat_of_digits x 0) l) s
+  end.
+
+Definition final_of (a : bytes) : fstatus :=
+  if bytes_eqb a (bs "eof") then FEOF else FErr (string_of_list_byte (skipn 4 a)).
+
+Definition nat_str (n : nat) : bytes :=
+  (fix go (fuel n : nat) (acc : bytes) : bytes :=
+     match fuel with
+     | O => acc
+     | S f => let d := match Byte.of_N (N.of_nat (48 + n mod 10)) with Some b => b | None => x30 end in
+              if n / 10 =? 0 then d :: acc else go f (n / 10) (d :: acc)
+     end) (S n) n [].
+
+Definition rerr_str (e : rerr) : bytes :=
+  match e with
+  | RParse ln rec f er => bs "P:" ++ nat_str ln ++ x3a :: str rec ++ x3a :: str f ++ x3a :: str er
+  | RInvalidTag mk => bs "T:" ++ hx mk
+  | RTooShort => bs "X"
+  | RScanner n => bs "S:" ++ str n
+  | RFileValidation _ _ => bs "V"
+  | RPanic => bs "panic"
+  | RStuck => bs "stuck"
+  end.
+
+Fixpoint join_bar (l : list bytes) : bytes :=
+  match l with
+  | [] => []
+  | [x] => x
+  | x :: t => x ++ x7c :: join_bar t
+  end.
+
+Definition opts_str (o : option (bool * bool)) : bytes :=
+  match o with
+  | None => bs "nil"
+  | Some (s, a) => [if s then x31 else x30; if a then x31 else x30]
+  end.
+
+Definition msg_str (m : message) : bytes :=
+  join_bar (opts_str (m_opts m) ::
+            flat_map (fun p => match snd p with
+                               | Some v => [str (t_name (fst p)) ++ x3a :: tagval_str v]
+                               | None => [] end) (combine tags (m_tags m))).
+
+Definition rresult_str (r : rresult) : bytes :=
+  match r with
+  | ROk m => bs "ok|" ++ msg_str m
+  | RErrors es => bs "err|" ++ join_bar (map rerr_str es)
+  end.
+
+(* preset, opts, final status, text, chunking *)
+Definition run_read (args : list bytes) : bytes :=
+  match args with
+  | [preset; opts; final; text; chunking] =>
+      rresult_str (read_model (opts_of preset) (opts_of opts) (chunks_of chunking text) (final_of final))
+  | _ => bs "bad-args"
+  end.
+
 Definition run (fn : bytes) (args : list bytes) : bytes :=
   let '(kind, name) := split_colon fn [] in
   if bytes_eqb kind (bs "validator") then res_err (run_validator (string_of_list_byte name) args)
   else if bytes_eqb kind (bs "tag") then run_tag name args
   else if bytes_eqb kind (bs "meta") then run_meta name args
+  else if bytes_eqb kind (bs "read") then run_read args
+  else if bytes_eqb kind (bs "prop") then bs "same"
   else if bytes_eqb kind (bs "msg") then
     (if bytes_eqb name (bs "write") then run_write args
      else if bytes_eqb name (bs "write-refusal-bytes") then bs "0"
@@ -262,8 +340,34 @@ Definition oracle_msg (pid : bytes) (name : bytes) (args : list bytes) : option 
   else if bytes_eqb name (bs "write-refusal-bytes") then (if pid_is pid "C06" then Some (bs "0") else None)
   else None.
 
+(* which implementation-side property oracles (harness stream l5-props / l4-reader) belong to which property *)
+Definition prop_owner (name : bytes) : list string :=
+  if bytes_eqb name (bs "write-read") then ["C01"%string]
+  else if bytes_eqb name (bs "valid-writes") then ["C01"; "C06"]%string
+  else if bytes_eqb name (bs "read-write-read") then ["C02"%string]
+  else if bytes_eqb name (bs "text-shape") then ["C07"%string]
+  else if bytes_eqb name (bs "valid-reads-back") then ["C10"; "C01"]%string
+  else if bytes_eqb name (bs "chunk-agree") || bytes_eqb name (bs "separator-agree") || bytes_eqb name (bs "order-agree") then ["C09"%string]
+  else if bytes_eqb name (bs "error-positions") then ["C15"%string]
+  else if bytes_eqb name (bs "accepted-valid") then ["C04"%string]
+  else [].
+
+Definition oracle_read (pid : bytes) (args : list bytes) : option bytes :=
+  match args with
+  | [_; _; final; _; _] =>
+      if pid_is pid "C08" then (if bytes_eqb final (bs "eof") then None else Some (bs "reject"))
+      else if pid_is pid "C03" then Some (bs "no-panic")
+      else None
+  | _ => None
+  end.
+
 Definition oracle (pid : bytes) (fn : bytes) (args : list bytes) : option bytes :=
   let '(kind, name) := split_colon fn [] in
+  if bytes_eqb kind (bs "prop") then
+    (if existsb (pid_is pid) (prop_owner name) then Some (bs "same") else None)
+  else if bytes_eqb kind (bs "read") then oracle_read pid args
+  else if bytes_eqb kind (bs "tag") then (if pid_is pid "C03" then Some (bs "no-panic") else None)
+  else
   if bytes_eqb kind (bs "validator") then
     (if pid_is pid "C11" then option_map okrej (spec_validator (string_of_list_byte name) args) else None)
   else if bytes_eqb kind (bs "msg") then oracle_msg pid name args
